@@ -380,6 +380,22 @@ class _SyncWs:
         return self.app(self)
 
     def wait(self):
+        self._wlog('ws_wait_enter', '')
+        item = self._wait()
+        self._wlog('ws_wait', 'NONE' if item is None else
+                   {'2probe': 'PINGprobe', '5': 'UPGRADE'}.get(item, 'BAD'))
+        return item
+
+    def _wlog(self, op, item):
+        # L2 (upgrade): the call and the return of wait() are primitives of their own
+        hub = _SyncWs.world.hub
+        if hub.primlog is not None and getattr(hub, 'log_wswait', False):
+            rec = {'t': getattr(hub.current, 'proc', None), 'op': op, 'item': item, 'q': 'wswait'}
+            hub.primlog.append(rec)
+            hub.after_log(rec)
+            hub.yield_point()
+
+    def _wait(self):
         if self.conn.server_closed or (self.conn.peer_gone and not self.inq.items):
             if not self.inq.items:
                 return None
